@@ -158,6 +158,13 @@ def modeOfJson (j : Json) : ConnMode :=
   | "begin" => .explicitBegin
   | _ => .pysqliteLegacy
 
+def failKindOfJson (j : Json) : FailKind :=
+  match getStrD j "fault_kind" with
+  | "keyboard" => .keyboardInterrupt
+  | "systemexit" => .systemExit
+  | "base" => .baseException
+  | _ => .exception
+
 def convOfJson (j : Json) : ConvTable :=
   (getArr j "convs").map (fun e => (getStrD e "ty", getBoolD e "cast", valueOfJson (getObj e "v"), valueOfJson (getObj e "out")))
 
@@ -199,6 +206,7 @@ def handle (op : String) (j : Json) : Option Json :=
         (match getObj j "copy_from_schema" with
          | .null => none
          | cf => some (schemaOfJson cf))
+        (failKindOfJson j)
       some (obj [("recreated", Json.bool out.recreated), ("stmts", strs (out.trace.map stmtTok)),
                  ("outcome", errJson out.err), ("final", dbToJson out.final)])
   | "batch.spec10" =>
